@@ -55,7 +55,9 @@ type execExtra struct {
 	overlay         map[string][]byte
 	addrObjs        []*Object
 	panicFrames     []*frame
-	tasks           []task
+	tasks           []*coTask
+	cur             *coTask
+	waitGroups      map[string]int
 	inTask          int
 	pools           map[string][]Value
 	mapOrderReverse bool
@@ -171,6 +173,9 @@ func (e *Exec) runPath(fn *ssa.Function, it workItem) (kind, msg, fatal string) 
 	e.addrObjs = nil
 	e.panicFrames = nil
 	e.tasks = nil
+	e.cur = nil
+	e.waitGroups = nil
+	e.pools = nil
 	e.mapOrderReverse = false
 	e.lockState = map[*Object]int{}
 	e.timeNow = 0
@@ -182,6 +187,13 @@ func (e *Exec) runPath(fn *ssa.Function, it workItem) (kind, msg, fatal string) 
 	if len(e.prefix) == 0 {
 		e.pmodel = nil
 	}
+	defer func() {
+		r0 := recover()
+		e.killTasks()
+		if r0 != nil {
+			defer func() { panic(r0) }()
+		}
+	}()
 	defer func() {
 		e.rep.Steps += e.steps
 		// roll back writes to persistent objects
